@@ -132,6 +132,15 @@ CHECKS = {
         "sequential single process: concurrent writers/readers/trimmers, arbitrary byte corruption of index entries (symbolic 176-byte entries) and the end-to-end linter clause are outside the claim.",
    technique="bounded symbolic execution of go/ssa over a modelled file system + SMT feasibility, native replay on a temp dir",
    design="3/C05"),
+ "C04": dict(
+   level="model_checking",
+   text="Kernel (key completeness): the real (*subrunner).do is executed from entry to its first cache lookup (stopped by an injected cache.Cache), and the real loader.computeHash, on pairs of scenarios that differ in at most one "
+        "documented key input (package hash, merged configuration minus Checks incl. the command-line merge, analyzer set, Go version, dependency paths and fact files; package path, export action id, file and go.mod contents, "
+        "import paths and build ids); all strings/bytes are symbolic; SHA-256 is modelled as collision-free (equal digests <=> equal inputs); the solver decides that equal keys imply equal inputs, and that Checks does not influence the key.",
+   note="The larger part of C04 (that the documented inputs are all that influences results; arbitrary histories of runs and edits) is outside the claim. Components are lower-case letters (unambiguous renderings); GODEBUG empty; "
+        "build ids are supplied through the loader's own buildidCache.",
+   technique="bounded symbolic execution of go/ssa + SMT with an axiomatised collision-free hash, native replay",
+   design="3/C04"),
 }
 
 NA = {
